@@ -55,6 +55,8 @@ type Program struct {
 	acache    map[*ssa.Function]bool
 	inprog    map[*ssa.Function]bool
 	allNamed  []types.Type
+	initSorts map[string]*term.Sort
+	axioms    []*T
 }
 
 func Load(dir string) (*Program, error) {
@@ -331,6 +333,19 @@ func (p *Program) specFun(name string) *term.FunSig { return p.specFuns[name] }
 
 func (p *Program) ghostField(typeKeyStr, field string) *term.Sort {
 	return p.ghost[typeKeyStr+"."+field]
+}
+
+func (p *Program) ghostFieldsOf(typeKeyStr string) map[string]*term.Sort {
+	var out map[string]*term.Sort
+	for k, s := range p.ghost {
+		if strings.HasPrefix(k, typeKeyStr+".") && !strings.Contains(k[len(typeKeyStr)+1:], ".") {
+			if out == nil {
+				out = map[string]*term.Sort{}
+			}
+			out[k[len(typeKeyStr)+1:]] = s
+		}
+	}
+	return out
 }
 
 func (p *Program) lookupDefine(q string) *contract.Define { return p.Defines[q] }
